@@ -26,11 +26,28 @@ void h_add(void) {
     before_k = g_sym[k];
     ok = wasiFileDescriptorAdd(nfd, newpath, &out);
     OBL(ok, "add: succeeds when memory is available and the path is non-empty and shorter than PATH_MAX");
-    OBL(out == n && wasi.fds.length == n + 1, "add: the new descriptor number is the old table length (never aliases a live descriptor)");
-    OBL(g_sym[k].fd == before_k.fd && g_sym[k].dir == before_k.dir && g_sym[k].path == before_k.path, "add: every earlier entry is unchanged");
-    OBL(g_sym[n].fd == nfd && g_sym[n].dir == 0, "add: the new entry holds the native descriptor and no directory stream");
-    OBL(g_sym[n].path != 0 && g_sym[n].path != newpath && strcmp(g_sym[n].path, newpath) == 0, "add: the path is copied into storage owned by the table");
+    /* the property fixes that a new descriptor never aliases a LIVE one; it may be the old table length (what the code does) or the slot of a closed one */
+    OBL((out == n && wasi.fds.length == n + 1) || (out < n && out != k) || (out == k && g_kind_d == K_CLOSED), "add: the new descriptor number never aliases a live descriptor (it is the old table length, or a closed slot)");
+    OBL(out < wasi.fds.length, "add: the returned number denotes an entry of the table");
+    if (out != k) OBL(g_sym[k].fd == before_k.fd && g_sym[k].dir == before_k.dir && g_sym[k].path == before_k.path, "add: every other entry is unchanged");
+    OBL(g_sym[out].fd == nfd && g_sym[out].dir == 0, "add: the new entry holds the native descriptor and no directory stream");
+    OBL(g_sym[out].path != 0 && g_sym[out].path != newpath && strcmp(g_sym[out].path, newpath) == 0, "add: the path is copied into storage owned by the table");
     CANARY("add returns");
+}
+/* the same contract on a table of <= 6 entries (an implementation may look through the table, e.g. for a closed slot to reuse): entry k symbolic, possibly closed */
+void h_add_small(void) {
+    ND(size_t, n); ND(int, nfd); ND(U32, k); ND_ARR(char, newpath, PLEN);
+    WasiFileDescriptor before_k; U32 out = 0xFFFFFFFFu; bool ok;
+    ASSUME(k < n && n <= 6 && nfd >= 3);
+    ASSUME(newpath[0] != 0); newpath[PLEN - 1] = 0;
+    mk_table_sym(n, n + 1, k);
+    before_k = g_sym[k];
+    ok = wasiFileDescriptorAdd(nfd, newpath, &out);
+    OBL(ok, "add: succeeds when memory is available");
+    OBL((out == n && wasi.fds.length == n + 1) || (out < n && out != k) || (out == k && g_kind_d == K_CLOSED), "add: the new descriptor number never aliases a live descriptor (it is the old table length, or a closed slot)");
+    OBL(out < wasi.fds.length && g_sym[out].fd == nfd && g_sym[out].dir == 0 && g_sym[out].path != 0 && strcmp(g_sym[out].path, newpath) == 0, "add: the entry the RETURNED number denotes is the one that holds the new descriptor");
+    if (out != k) OBL(g_sym[k].fd == before_k.fd && g_sym[k].dir == before_k.dir && g_sym[k].path == before_k.path, "add: every other entry is unchanged");
+    CANARY("add small returns");
 }
 void h_add_oom(void) {                 /* allocation may fail: failure leaves the table unchanged */
     ND(size_t, n); ND(int, nfd); ND_ARR(char, newpath, PLEN); U32 out = 0; bool ok;
